@@ -198,8 +198,28 @@ func (c *Ctx) loadSpecs(extra []string) error {
 			c.ghosts[g.Name] = g
 		}
 		for _, fc := range sf.Funcs {
-			if _, dup := c.contracts[fc.Target]; dup {
-				return fmt.Errorf("%s: duplicate contract for %s", f, fc.Target)
+			if prev, dup := c.contracts[fc.Target]; dup {
+				// several blocks for one function (one per property group) are merged
+				if prev.Extern != fc.Extern {
+					return fmt.Errorf("%s: conflicting contracts for %s", f, fc.Target)
+				}
+				prev.Props = unionProps(prev.Props, fc.Props)
+				prev.Clauses = append(prev.Clauses, fc.Clauses...)
+				prev.Reveal = append(prev.Reveal, fc.Reveal...)
+				if fc.NoPanic {
+					if prev.NoPanic && (len(prev.NoPanicKinds) == 0 || len(fc.NoPanicKinds) == 0) {
+						prev.NoPanicKinds = nil
+					} else {
+						prev.NoPanicKinds = append(prev.NoPanicKinds, fc.NoPanicKinds...)
+					}
+					prev.NoPanic = true
+					prev.NoPanicProps = unionProps(prev.NoPanicProps, fc.NoPanicProps)
+				}
+				prev.Fresh = prev.Fresh || fc.Fresh
+				if len(prev.Params) == 0 {
+					prev.Params = fc.Params
+				}
+				continue
 			}
 			c.contracts[fc.Target] = fc
 			if fc.SpecName != "" {
